@@ -7,8 +7,9 @@ type), `JSONWriteUint32/Int32/Uint64/Int64` (`strconv.AppendUint/AppendInt` base
 `jsonWriteFloatSpecial`.  The writers append to `w`; the model returns the appended bytes.
 `safeSet`, `hex`, `binaryJSONStringStart/End` come from the regenerated facts file.
 
-The `start`/`i` bookkeeping of the Go loop (copy the pending run `s[start:i]` before every escape and at
-the end) is modelled by emitting every unescaped byte where it stands.
+The loop is modelled twice: `escapeLoop` emits every unescaped byte where it stands (the theorems are stated about
+it); `escapeGo` keeps the `start`/`i` bookkeeping of the Go loop (copy the pending run `s[start:i]` before every
+escape and at the end, reset `start`), is what the driver executes, and is proved equal to `escapeLoop`.
 -/
 namespace TLVerif.Jsonp
 open TLVerif.Facts.Jsonp
@@ -56,6 +57,34 @@ decreasing_by all_goals (simp only [List.length_cons, List.length_drop]; omega)
 def writeString (s : Bytes) : Bytes :=
   if !utf8Valid s then b64Start ++ b64encode s ++ b64End
   else 0x22 :: (escapeLoop s ++ [0x22])
+
+/-- The same loop with the `start`/`i` bookkeeping of the Go code: `run = s[start:]`, `n = i - start`,
+`cur = s[i:]` (so the pending run `s[start:i]` is `run.take n`); the result is what is appended to `w` from here on,
+including the final `if start < len(s) { w = append(w, s[start:]...) }`. -/
+def escapeGo (run : Bytes) (n : Nat) (cur : Bytes) : Bytes :=
+  match cur with
+  | [] => if run ≠ [] then run else []
+  | b :: t =>
+    if b.toNat < 0x80 then
+      if safe b.toNat then escapeGo run (n + 1) t                       -- i++; continue
+      else
+        (if 0 < n then run.take n else [])                              -- if start < i { w = append(w, s[start:i]...) }
+          ++ (0x5C :: (escAscii b ++ escapeGo t 0 t))                   -- i++; start = i
+    else
+      let cs := decodeRune (b :: t)
+      if cs.1 = runeError ∧ cs.2 = 1 then
+        (if 0 < n then run.take n else []) ++ ([0x5C, 0x75, 0x66, 0x66, 0x66, 0x64] ++ escapeGo t 0 t)
+      else if cs.1 = 0x2028 ∨ cs.1 = 0x2029 then
+        (if 0 < n then run.take n else [])
+          ++ ([0x5C, 0x75, 0x32, 0x30, 0x32, hexChar (cs.1 % 16)] ++ escapeGo (t.drop (cs.2 - 1)) 0 (t.drop (cs.2 - 1)))
+      else escapeGo run (n + cs.2) (t.drop (cs.2 - 1))                   -- i += size
+termination_by cur.length
+decreasing_by all_goals (simp only [List.length_cons, List.length_drop]; omega)
+
+/-- `JSONWriteString(nil, s)` as the Go code computes it (proved equal to `writeString`) -/
+def writeStringGo (s : Bytes) : Bytes :=
+  if !utf8Valid s then b64Start ++ b64encode s ++ b64End
+  else 0x22 :: (escapeGo s 0 s ++ [0x22])
 
 /-- decimal digits of `n`, most significant first (`strconv.AppendUint(_, n, 10)`) -/
 def formatUint (n : Nat) : Bytes :=
